@@ -90,17 +90,20 @@ def queries(tier, seed=0):
     for n in ((3, 4) if tier == 'quick' else (3, 4, 5)):
         for di, d in enumerate(vdefs):
             qs.append(dict(stage='vulnerability', n=n, S=2, O=2, P=2, defs=di))
+    if tier == 'quick':
+        qs.append(dict(stage='vulnerability', n=5, S=1, O=2, P=1, defs=3))     # a user subnet of three hosts
     for n in ((3,) if tier == 'quick' else (3, 4)):
         for rs in (1, 2, 3):
             for di in (0, 1):
                 qs.append(dict(stage='firewall', n=n, S=2, O=2, P=1, defs=di, restrictiveness=rs))
-    qs.append(dict(stage='firewall', n=8, S=1, O=1, P=1, defs=2, restrictiveness=1, concrete_hosts=True))
+    qs.append(dict(stage='firewall', n=8, S=2, O=1, P=1, defs=2, restrictiveness=1, concrete_hosts=True))
+    qs.append(dict(stage='firewall', n=13, S=2, O=1, P=1, defs=2, restrictiveness=1, concrete_hosts=True))
     qs.append(dict(stage='glue', n=3, S=1, O=1, P=1))
     return qs
 
 
 VDEFS = [dict(e=[(0, 0), (1, None)], pe=[(0, None)]), dict(e=[(0, 1)], pe=[(0, 0), (1, 1)]),
-         dict(e=[(1, None)], pe=[(1, None)])]
+         dict(e=[(1, None)], pe=[(1, None)]), dict(e=[(0, 1)], pe=[(0, None)])]
 FDEFS = [dict(e=[(0, 0), (1, None)]), dict(e=[(0, None), (1, 1)]), dict(e=[(0, None)])]
 
 
